@@ -373,6 +373,17 @@ def handleCfg (st : DState) : List String → DState × String
         | .error p => (st, s!"accept-but-construct-panics {p.name}")
       else (st, "reject")
     | _, _, _, _, _, _ => (st, "bad-op")
+  | "input" :: a :: n :: toks =>
+    -- a syslog input: address splits, number of level-mapping entries, extraction steps (same tokens as `verify`)
+    match n.toNat?, Drv.parseCfg toks with
+    | some n, some steps =>
+      let i : CfgFile.Input := { addrSplits := a == "1", levels := n, extractions := steps }
+      if CfgFile.inputOK st.cfgSchema i then
+        match CfgFile.constructInput st.cfgSchema i with
+        | .ok _ => (st, "accept")
+        | .error p => (st, s!"accept-but-construct-panics {p.name}")
+      else (st, "reject")
+    | _, _ => (st, "bad-op")
   | "verify" :: toks =>
     match Drv.parseCfg toks with
     | none => (st, "bad-op")
